@@ -355,11 +355,35 @@ class CaseTimeout(BaseException):
   pass
 
 
+_SINCE_RELEASE = [0]
+
+
+def _release_compiled(prop) -> None:
+  import gc
+  import sys
+  try:
+    if hasattr(prop, 'release'):
+      prop.release()
+    if 'jax' in sys.modules:
+      sys.modules['jax'].clear_caches()
+    gc.collect()
+  except Exception:
+    pass
+
+
 def guarded_evaluate(prop: 'Property', case: Any, ctx: 'Ctx') -> Outcome:
   """prop.evaluate under a SIGALRM watchdog: an implementation that never returns on a case is a
   concrete failing input (the limit is generous: cases normally take well under a second)."""
   import signal
   limit = float(os.environ.get('VERIF_CASE_TIMEOUT_S', getattr(prop, 'CASE_TIMEOUT_S', 300)))
+  # Long runs compile thousands of XLA programs in one process; LLVM's JIT section memory is finite
+  # ("LLVM ERROR: Unable to allocate section memory", seen after ~10 minutes of the thorough tier).
+  # Drop the compiled programs every few minutes of wall time; they are recompiled on demand.
+  if _SINCE_RELEASE[0] == 0:
+    _SINCE_RELEASE[0] = time.time()
+  if time.time() - _SINCE_RELEASE[0] >= float(os.environ.get('VERIF_RELEASE_EVERY_S', '180')):
+    _SINCE_RELEASE[0] = time.time()
+    _release_compiled(prop)
 
   def handler(signum, frame):
     raise CaseTimeout()
